@@ -22,6 +22,7 @@ file, position all agree), for arbitrary member counts, nesting depths and names
 * `C05SpecExamples`          two concrete files (kernel-evaluated on both sides)
 
 No disagreement between the model and the specification was found: no declaration kind or rule is excluded.
+Multiplicities agree as well: `Props/C05SpecPerm.lean` (`finishFile_perm_violations`).
 -/
 namespace Pydjinni.Front
 
